@@ -87,6 +87,20 @@ def check_case(ctx, c, pool=None):
                     res = r
             if res is not None:
                 pool.append(res)
+            if c["nrm"] and c["out"] == "rejected" and any(e_["p"][0] < 0 for e_ in c["inp"]):
+                # the same ill-formed input with a NEARLY zero negative weight (round-off size, far below what the rationals of the
+                # specification can express) next to weights that sum to 1: whatever is done with it, no object may hold a
+                # negative probability
+                keys = [tuple(e_["k"]) for e_ in c["inp"]]
+                tiny = {k_: (-4e-14 if i_ == 0 else 1.0 / (len(keys) - 1)) for i_, k_ in enumerate(keys)} if len(keys) > 1 else None
+                if tiny:
+                    try:
+                        r_ = MeasurementOutcomeDistribution(dict(tiny), normalize=c["nrm"])
+                        vals = list(r_.distribution_dict.values())
+                        if min(vals) < 0:
+                            out.append(("new:negative-held", "new(%s, normalize=%s): the object holds a negative probability: %s" % (tiny, c["nrm"], r_.distribution_dict)))
+                    except Exception:
+                        pass
         elif op == "marginal":
             src = pool[c["o"] - 1]
             try:
@@ -113,9 +127,15 @@ def check_case(ctx, c, pool=None):
         elif op == "distance":
             p, q = pool[c["o"] - 1], pool[c["o2"] - 1]
             snap = Snap([p, q])
-            for sigma in (1.0, 0.4, [0.5, 2.0]):
-                a = compute_mmd(p, q, {"sigma": sigma})
-                b = compute_mmd(q, p, {"sigma": sigma})
+            shared = {"sigma": np.array([0.5, 2.0, 1.25])}      # ONE parameter dictionary (widths as a float array) for both calls
+            for sigma in (1.0, 0.4, [0.5, 2.0], shared):
+                par = sigma if isinstance(sigma, dict) else {"sigma": sigma}
+                a = compute_mmd(p, q, par if isinstance(sigma, dict) else dict(par))
+                b = compute_mmd(q, p, par if isinstance(sigma, dict) else dict(par))
+                if isinstance(sigma, dict):
+                    if not np.array_equal(shared["sigma"], np.array([0.5, 2.0, 1.25])):
+                        out.append(("mmd:parameters-mutated", "%s: compute_mmd modified the caller's kernel widths: now %s" % (desc, shared["sigma"].tolist())))
+                    sigma = "array [0.5, 2.0, 1.25] shared by both calls"
                 if abs(a - b) > 1e-12:
                     out.append(("mmd:symmetry", "%s: mmd(p,q)=%r, mmd(q,p)=%r (sigma %s)" % (desc, a, b, sigma)))
                 if a < -1e-12:
